@@ -18,7 +18,7 @@ def run(ctx):
     out = P.run_chunks(ctx, "soup", cases, "soup", chunk=ctx.pick(20000, 60000), par=ctx.pick(2, 4),
                        timeout=ctx.pick(900, 3000))
     summaries = [o["summary"] for o in out if "summary" in o]
-    hangs = [o for o in out if o.get("fail") == "hang"]
+    hangs = [o for o in out if o.get("fail") in ("hang", "died")]
     if hangs:
         # no tree at all: reported here too (C02 owns termination); nothing else can be judged in this run
         ctx.violation("C01/no-tree/hang", {"count": len(hangs), "first": hangs[0]})
